@@ -208,7 +208,8 @@ func (g *G) boolExpr(s *st, depth int) string {
 		g.feat("kind/is_error")
 		switch g.intn(3, "kindfn") {
 		case 0:
-			return "kind(" + ref + ")==\"" + pickStr(g, []string{"primitive", "record", "array", "set", "map", "union", "error"}, "kindname") + "\""
+			// (kind(null(type)) panics like nameof)
+			return "kind(" + g.nameofArg(s, f, ref) + ")==\"" + pickStr(g, []string{"primitive", "record", "array", "set", "map", "union", "error"}, "kindname") + "\""
 		case 1:
 			return "is_error(" + ref + ")"
 		default:
@@ -235,7 +236,10 @@ func (g *G) nameofArg(s *st, f *Field, ref string) string {
 			return ref
 		}
 	}
-	return "this"
+	if s.recs {
+		return "this"
+	}
+	return "typeof(this)"
 }
 
 var keywordRE = regexp.MustCompile(`^[A-Za-z_][A-Za-z0-9_]*$`)
@@ -516,7 +520,10 @@ func (g *G) valueExpr(s *st, depth int) string {
 		}
 	case 23:
 		g.feat("kind/is_error")
-		return pickStr(g, []string{"kind", "is_error", "typeunder", "quiet"}, "miscfn") + "(" + ref + ")"
+		if fn := pickStr(g, []string{"kind", "is_error", "typeunder", "quiet"}, "miscfn"); fn != "kind" {
+			return fn + "(" + ref + ")"
+		}
+		return "kind(" + g.nameofArg(s, f, ref) + ")"
 	case 24:
 		g.feat("string-fn")
 		return pickStr(g, []string{"upper", "lower", "trim", "rune_len", "hex"}, "strfn") + "(" + ref + ")"
